@@ -1072,6 +1072,17 @@ def _elemwise_exprs():
     return out
 
 
+class _NoRewrite(Exception):
+    pass
+
+
+def _np_or(E):
+    try:
+        return E.npartitions
+    except Exception:  # noqa: BLE001  (D28: single-partition scalar-first binop has no divisions)
+        return 1
+
+
 def _ops_text(E):
     from dask_expr._core import Expr
 
@@ -1097,6 +1108,8 @@ def fam_push_rules(ctx):
             for n, k in ((7, 2), (3, 1), (5, -1)):
                 try:
                     r = Head(E, n, k)._simplify_down()
+                    if r is None:
+                        raise _NoRewrite()
                     if type(r) is not type(E):
                         raise AssertionError(f"result is {type(r).__name__}")
                     ents = []
@@ -1108,14 +1121,18 @@ def fam_push_rules(ctx):
                         else:
                             ents.append("?")
                     txt = ",".join(ents)
+                except _NoRewrite:
+                    txt = "none"
                 except Exception as ex:  # noqa: BLE001
                     txt = _err(ex)
-                reqs.append(f"hd push ndim={E.ndim} ops={opsd} n={n} k={k}")
+                reqs.append(f"hd push ndim={E.ndim} np={_np_or(E)} ops={opsd} n={n} k={k}")
                 code.append(txt)
                 inputs.append({"expr": nm, "rule": "Head._simplify_down", "n": n, "k": k})
                 nontriv.append(True)
             try:
                 r = Tail(E, 4)._simplify_down()
+                if r is None:
+                    raise _NoRewrite()
                 ents = []
                 for op, o0 in zip(r.operands, E.operands):
                     if isinstance(op, Tail) and isinstance(o0, Expr) and op.frame._name == o0._name:
@@ -1125,9 +1142,11 @@ def fam_push_rules(ctx):
                     else:
                         ents.append("?")
                 txt = ",".join(ents)
+            except _NoRewrite:
+                txt = "none"
             except Exception as ex:  # noqa: BLE001
                 txt = _err(ex)
-            reqs.append(f"tl push ndim={E.ndim} ops={opsd} n=4")
+            reqs.append(f"tl push ndim={E.ndim} np={_np_or(E)} ops={opsd} n=4")
             code.append(txt)
             inputs.append({"expr": nm, "rule": "Tail._simplify_down"})
             nontriv.append(True)
